@@ -55,6 +55,10 @@ pub enum Expr {
     Call(String, Vec<Expr>),
     TurnsSince(String),
     ChoiceCount,
+    /// call of an EXTERNAL function
+    Ext(String, Vec<Expr>),
+    /// string literal with inline logic: "v{e}"
+    Interp(Vec<Part>),
 }
 
 impl Expr {
@@ -81,6 +85,8 @@ impl Expr {
             Expr::Not(a) => format!("(not {})", a.render()),
             Expr::Neg(a) => format!("(0 - {})", a.render()),
             Expr::Call(f, args) => format!("{f}({})", args.iter().map(|a| a.render()).collect::<Vec<_>>().join(", ")),
+            Expr::Ext(f, args) => format!("{f}({})", args.iter().map(|a| a.render()).collect::<Vec<_>>().join(", ")),
+            Expr::Interp(parts) => format!("\"{}\"", render_parts(parts)),
             Expr::TurnsSince(k) => format!("TURNS_SINCE(-> {k})"),
             Expr::ChoiceCount => "CHOICE_COUNT()".into(),
         }
@@ -226,6 +232,9 @@ pub struct Knot {
 
 #[derive(Clone, Debug, PartialEq)]
 pub struct Program {
+    /// EXTERNAL declarations: (name, parameter names); an Ink function of the same name among
+    /// the knots is its fallback
+    pub externals: Vec<(String, Vec<String>)>,
     pub globals: Vec<(String, Expr)>,
     pub root: Vec<Stmt>,
     pub knots: Vec<Knot>,
@@ -330,6 +339,9 @@ fn render_stmt(s: &Stmt, ind: usize, level: usize, out: &mut String) {
 impl Program {
     pub fn render(&self) -> String {
         let mut out = String::new();
+        for (n, ps) in &self.externals {
+            writeln!(out, "EXTERNAL {n}({})", ps.join(", ")).unwrap();
+        }
         for (n, e) in &self.globals {
             writeln!(out, "VAR {n} = {}", e.render()).unwrap();
         }
